@@ -89,6 +89,15 @@ CLAIMED = {
         'no-concurrency of MF/MSM/Embedding are checked on the implementation (probe), not proved. Two genuine defects (ErdosRenyiNet, DiskNet positional edges) were repaired by fix: commits.',
    technique='Coq proofs about edge-list maintenance and timed edges + in-Coq differential evaluation + per-step network probe',
    design='5 C14'),
+ 'C15': dict(
+   text='Coq theorems: counts are filters over the active agents, prevalence lies in [0,1] when the infected are among the living, a series recorded with the '
+        'generated bound [:ti+1] is the running sum including the current step (recurrence proved), the sim-level cum_deaths series (generated bound [:ti]) lags one '
+        'step (theorem + refutation witness), scaling multiplies exactly the scalable results, pop_scale/total_pop forms are consistent, cumulative sums commute with scaling. '
+        'Slice bounds, prevalence expression and pop_scale regenerated from the source; recorded flow series of real runs are replayed by the model in Coq and compared with the real arrays.',
+   note='Trusted: Coq kernel, translator, harness (recount analyzer probe). Exports (to_df, to_json, summarize, shrink, save/load) are re-packaging and are tied by execution only. '
+        'Known finding: cum_deaths lag (pinned in tests/baseline.json, not repaired).',
+   technique='Coq proofs about cumulative series / scaling over generated slice bounds + in-Coq replay of recorded series + recount probe and scaled twins',
+   design='5 C15'),
 }
 
 checks = []
